@@ -108,7 +108,22 @@ func runSnapshot(t *testing.T, fx *fixtures, c verifCase, w *bufio.Writer) {
 func cfgOf(router *Router) string {
 	rows := []string{}
 	for n, d := range router.ListActiveServices() {
-		rows = append(rows, fmt.Sprintf("%s|%s|%s|%s|%s|%s", hexB([]byte(n)), hexB([]byte(d.Host)), hexB([]byte(d.Path)), hexB([]byte(d.Target)), b2s(d.TLS), d.State))
+		ro, sp, hc := "-", "-", ""
+		if svc := router.serviceForName(n); svc != nil {
+			_, rollout, rc := svc.loadBalancers()
+			if rollout != nil {
+				ro = hexB([]byte(strings.Join(rollout.Targets().Names(), ",")))
+			}
+			if rc != nil {
+				al := []string{}
+				for _, a := range rc.Allowlist {
+					al = append(al, hexB([]byte(a)))
+				}
+				sp = fmt.Sprintf("%d:%s", rc.Percentage, strings.Join(al, ","))
+			}
+			hc = svc.targetOptions.HealthCheckConfig.Path
+		}
+		rows = append(rows, fmt.Sprintf("%s|%s|%s|%s|%s|%s|ro=%s|split=%s|hc=%s", hexB([]byte(n)), hexB([]byte(d.Host)), hexB([]byte(d.Path)), hexB([]byte(d.Target)), b2s(d.TLS), d.State, ro, sp, hexB([]byte(hc))))
 	}
 	sort.Strings(rows)
 	return "[" + strings.Join(rows, ";") + "]"
